@@ -57,7 +57,7 @@ ghost_after('Maintainer._finish_work_order', 'self._active_requests.remove(reque
             **{'self._g_in_use': 'self._g_in_use - request.needed_capacity'})
 
 # what a target's hooks may do to the maintainer while they run: request further work orders (public API)
-rely('Maintainer', protect=['self._env', 'self._capacity', 'self._name', 'self._value', 'self._initial_value',
+rely('Maintainer', protect=['self._env', 'self._env._now', 'self._capacity', 'self._name', 'self._value', 'self._initial_value',
                             'self._value_history', 'self._value_history[]'],
      before=M_SCAN_INVS,
      after=dict(M_INVS,
